@@ -229,7 +229,9 @@ CHECKS = {
         "level_text": "seeded interleavings of read-modify-write updates, runner-style basic updates and loads issued by 1-3 simulated OS "
                       "processes (own StatusFileData, own descriptors, own directory alias) and 0-3 daemon goroutines on one BaseWorkUnit; a "
                       "scheduler runs exactly one task at a time and switches at every file step (lock, open, write, truncate, read), "
-                      "releasing a task into a lock step only when a non-blocking flock probe succeeds; every history is checked with "
+                      "releasing a task into a lock step when a non-blocking flock probe succeeds or, now and then, while the lock is held, so that "
+                      "it sleeps in the kernel's flock as a real queued waiter; one plan in three has a process write a final state mid-history; "
+                      "every history is checked with "
                       "porcupine against a sequential record model, plus per-owner update counts and parse results of every load. Also: first writes on an "
                       "empty record, absolute assignments repeated through long-lived record objects (register semantics), and the daemon's in-memory view "
                       "(never goes back; own goroutines' updates visible from the moment they return), with daemon tasks interleaving wherever the unit's "
